@@ -210,6 +210,7 @@ type kernelCtx struct {
 	byBlk  map[string]*Block        // func blocks by name
 	pures  map[string]*Block
 	loops  map[string]*Block
+	mentioned map[string]bool // identifiers appearing anywhere in the contract files
 }
 
 func newKernelCtx(w *World, blocks []*Block) (*kernelCtx, error) {
@@ -290,6 +291,29 @@ func (kc *kernelCtx) runFunc(b *Block) *Unit {
 	}
 	if c := b.first("recv"); c != nil {
 		recvName = strings.TrimSpace(c.Text)
+	}
+	// the names the contract was written against (`binds`, generated by tools/mkbinds.py): parameters and captured variables of
+	// the function. A renamed one would otherwise resolve to some other cell of the same name, or to an event name that
+	// never occurs, and fail for no semantic reason.
+	if c := b.first("binds"); c != nil {
+		have := map[string]bool{}
+		for f := fn; f != nil; f = f.Parent() {
+			for _, p := range f.Params {
+				have[p.Name()] = true
+			}
+			for _, fv := range f.FreeVars {
+				have[fv.Name()] = true
+			}
+		}
+		var missing []string
+		for _, n := range strings.Fields(c.Text) {
+			if !have[n] {
+				missing = append(missing, n)
+			}
+		}
+		if len(missing) > 0 {
+			u.Errs = append(u.Errs, fmt.Sprintf("contract %s does not bind: no parameter or captured variable named %s", b.Name, strings.Join(missing, ", ")))
+		}
 	}
 	// the type contract must still bind: every field / cell it names exists (a renamed field makes every obligation of the
 	// type's functions meaningless - reported as "does not bind", never as a violation)
@@ -632,6 +656,9 @@ func (kc *kernelCtx) hooks(b *Block, ts *TypeSpec, recv string, inline map[strin
 		for _, e := range ls.IterEnsures {
 			g, err := env.evalBool(e)
 			if err != nil {
+				if strings.Contains(err.Error(), "unknown identifier") {
+					x.unsupp(st, "loop contract: %v", err)
+				}
 				g = "false"
 			}
 			out = append(out, g)
@@ -681,6 +708,7 @@ func (kc *kernelCtx) hooks(b *Block, ts *TypeSpec, recv string, inline map[strin
 			}
 			c, err := env.matchEvent(ex, tracked[i])
 			if err != nil {
+				x.unsupp(st, "loop contract %s: %v", p, err) // e.g. an identifier the contract names no longer exists: the unit does not bind
 				return "false"
 			}
 			cs = append(cs, c)
@@ -723,6 +751,13 @@ func (kc *kernelCtx) hooks(b *Block, ts *TypeSpec, recv string, inline map[strin
 				name = strings.TrimSpace(c.Text)
 			}
 			return pureSpec(name, pb)
+		}
+		// a private helper of the same package that no contract knows (by a block of its own or by naming its call as an
+		// event) is part of its caller: it is executed in place, so that extracting a few lines into a helper changes nothing
+		if ok, why := kc.privateHelper(fn, b.Pkg); ok {
+			return &CalleeSpec{Inline: true}
+		} else if why != "" {
+			return &CalleeSpec{Unsupported: why}
 		}
 		return nil
 	}
@@ -1064,4 +1099,45 @@ func (kc *kernelCtx) typeSpecUnbound(ts *TypeSpec, outer *ssa.Function, fns map[
 	}
 	sort.Strings(missing)
 	return missing
+}
+
+// privateHelper: fn is an unexported package-level function (or method) of package pkg, with a body, without a contract
+// block, and no contract text mentions it (as call.<name>, in an inline list or as a block name).
+func (kc *kernelCtx) privateHelper(fn *ssa.Function, pkg string) (bool, string) {
+	if fn == nil || fn.Blocks == nil || fn.Parent() != nil || pkgPathOf(fn) != pkg || fn.Object() == nil || fn.Object().Exported() {
+		return false, ""
+	}
+	if kc.mentioned == nil {
+		kc.mentioned = map[string]bool{}
+		idRe := regexp.MustCompile(`[A-Za-z_][A-Za-z0-9_]*`)
+		for _, b := range kc.blocks {
+			for _, id := range idRe.FindAllString(b.Name, -1) {
+				kc.mentioned[id] = true
+			}
+			for _, c := range b.Clauses {
+				for _, id := range idRe.FindAllString(c.Text, -1) {
+					kc.mentioned[id] = true
+				}
+			}
+		}
+	}
+	if kc.mentioned[fn.Name()] {
+		return false, ""
+	}
+	// no loops (they would need a contract of their own) and not recursive
+	for _, blk := range fn.Blocks {
+		for _, succ := range blk.Succs {
+			if succ.Dominates(blk) {
+				return false, "the private helper " + fn.Name() + " has a loop and no contract"
+			}
+		}
+		for _, ins := range blk.Instrs {
+			if c, ok := ins.(*ssa.Call); ok {
+				if cal := c.Common().StaticCallee(); cal != nil && (cal == fn || (cal.Origin() != nil && cal.Origin() == fn)) {
+					return false, "the private helper " + fn.Name() + " is recursive and has no contract"
+				}
+			}
+		}
+	}
+	return true, ""
 }
